@@ -35,13 +35,27 @@ try:
         if not any(c.tag in ('failure', 'error', 'skipped') for c in tc):
             passed.add(name)
     missing = sorted(base - passed)
+    # tests that fail only because the machine is loaded (timing-dependent ones such as tests.test_parallel.Test::test_range):
+    # re-run the missing ones alone, once, and keep only those that fail again
+    if 0 < len(missing) <= 30:
+        still = []
+        for m in missing:
+            cls, name = m.split('::', 1)
+            parts = cls.split('.')
+            node = '/'.join(parts[:2]) + '.py::' + '.'.join(parts[2:]) + '::' + name
+            rr = sh(f'cd {wt} && /venv/bin/python -m pytest -q -p no:cacheprovider --timeout=1800 "{node}"', env=env)
+            if rr.returncode != 0:
+                still.append(m)
+            else:
+                print('  passes when re-run alone (load-dependent):', m)
+        missing = still
     print(f'baseline tests: {len(base)}, passed now: {len(base & passed)}, missing: {len(missing)}')
     for m in missing[:40]:
         print('  FAILS WITH THE BATCH:', m)
     for n in applied:
         mp = f'{V}/seeded/{n}/meta.json'
         d = json.load(open(mp))
-        d['suite'] = {'batch': batch, 'applied_together_with': [x for x in applied if x != n], 'baseline_tests': len(base), 'baseline_tests_passing': len(base & passed),
+        d['suite'] = {'batch': batch, 'applied_together_with': [x for x in applied if x != n], 'baseline_tests': len(base), 'baseline_tests_passing': len(base) - len(missing),
                       'passed': not missing, 'command': 'pytest -q -p no:cacheprovider --timeout=1800 --continue-on-collection-errors -n N (full suite, PYTHONPATH=<scratch worktree>/src)'}
         json.dump(d, open(mp, 'w'), indent=1)
 finally:
